@@ -1,5 +1,6 @@
 """C02 — SIMD back-ends equal the portable one: routing and table clauses (DESIGN §4 C02)."""
-from ..engines import dispatch_rules, simd_rules, lanepair, loadwidth, roundbudget, row_coverage
+from ..engines import (alpha_rules, alphapair, dispatch_rules, simd_rules, lanepair, loadwidth, rounding,
+                       roundbudget, row_coverage)
 from ..progs import programs
 
 
@@ -16,6 +17,11 @@ def run(rep, tier):
         rep.call(row_coverage.group_tail, rep, prog, "C02.kernel-rows")
         rep.call(loadwidth.guard_adequacy, rep, prog, "C02.loadwidth", loadwidth.FLOOR.get(cfg, 50))
         rep.call(roundbudget.budget, rep, prog, "C02.round-budget", {"x86": 110, "arm": 60, "wasm": 55}.get(cfg, 40))
+        # alpha multiplication/division: the SIMD primitives against the portable routines
+        rep.call(alpha_rules.zero_guard, rep, prog, "C02.zero-guard")
+        rep.call(rounding.round_div, rep, prog, "C02.round-div")
+        rep.call(simd_rules.lane_bypass, rep, prog, "C02.lane-bypass")
         if cfg.startswith("x86"):
+            rep.call(alphapair.provenance, rep, prog, "C02.alpha-provenance")
             rep.call(lanepair.pairing, rep, prog, "C02.lane-pairing")
             rep.call(lanepair.stores, rep, prog, "C02.lane-store")
